@@ -119,3 +119,95 @@ def combine_batch(tables_path, out_path, workdir):
     if rank == 0:
         with open(out_path, "w") as f:
             json.dump(results, f)
+
+
+# ----------------------------------------------------------------------------- C07: snapping routine on exact linear models
+def _snap_model(k):
+    import numpy as np
+    x = np.linspace(0.5, 2.5, 12)
+    cols = {1: [x], 2: [x, np.ones_like(x)], 3: [x, np.ones_like(x), x * x]}[k]
+    fstr = {1: "a0*x", 2: "a0*x + a1", 3: "a0*x + a1 + a2*x**2"}[k]
+    return x, np.array(cols).T, fstr
+
+
+def snap_batch(cases_path, out_path, workdir):
+    """cases: [{id,k,small,tie,curv,bad}] -> observed return of test_all_Fisher.convert_params on an exactly
+    solvable linear Gaussian model realising the case (projection P5)."""
+    import io, contextlib, math
+    import numpy as np
+    import esr.fitting.test_all_Fisher as tf
+    cases = json.load(open(cases_path))
+    os.makedirs(workdir, exist_ok=True)
+    sigma = 0.5
+    out = []
+    likes = {}
+    for c in cases:
+        k = c["k"]
+        x, Phi, fstr = _snap_model(k)
+        I = Phi.T @ Phi / sigma ** 2
+        thr = np.sqrt(12.0 / np.diag(I))
+        theta = np.zeros(k)
+        for i in range(k):
+            sgn = -1.0 if i % 2 else 1.0
+            if (i + 1) in c["tie"]:
+                theta[i] = sgn * thr[i]
+            elif (i + 1) in c["small"]:
+                theta[i] = sgn * 0.4 * thr[i]
+            else:
+                theta[i] = sgn * 3.0 * thr[i]
+        y = Phi @ theta
+        dd = os.path.join(workdir, "k%d_%d" % (k, c["id"]))
+        os.makedirs(dd, exist_ok=True)
+        np.savetxt(os.path.join(dd, "d.txt"), np.transpose([x, y, np.full(len(x), sigma)]))
+        base = make_like("gauss", "d.txt", "r", dd, "core_maths")
+        bad = {frozenset(z) for z in c["bad"]}
+        curv = c["curv"]
+
+        class Wrap:
+            is_mse = False
+
+            def negloglike(self, a, eq_numpy, **kw):
+                a = np.atleast_1d(np.asarray(a, dtype=float))
+                zeros = frozenset(i + 1 for i in range(k) if a[i] == 0)
+                if zeros in bad:
+                    return np.inf
+                v = base.negloglike(a, eq_numpy, **kw)
+                for i in range(k):
+                    if curv[i] == "nonpos":
+                        v = v - 2.0 * I[i, i] * (a[i] - theta[i]) ** 2
+                    elif curv[i] == "nonfinite" and a[i] != theta[i]:
+                        return np.inf
+                return v
+
+            def run_sympify(self, f, **kw):
+                return base.run_sympify(f, **kw)
+        w = Wrap()
+        fcn, eq, integ = w.run_sympify(fstr)
+        import sympy
+        from esr.fitting.sympy_symbols import x as sx
+        syms = [sx] + [sympy.Symbol("a%d" % j, real=True) for j in range(k)]
+        eqn = sympy.lambdify(syms, eq, modules=["numpy"])
+        nll0 = w.negloglike(theta, eqn)
+        rec = {"id": c["id"]}
+        try:
+            with contextlib.redirect_stdout(io.StringIO()):
+                params, nll, deriv, codelen = tf.convert_params(fcn, eq, integ, theta.copy(), w, nll0, max_param=4)
+            params = np.asarray(params, dtype=float)
+            zeros = [i + 1 for i in range(k) if params[i] == 0.0]
+            kept = [i for i in range(k) if params[i] != 0.0]
+            codelen = float(codelen)
+            rec["len"] = "nan" if math.isnan(codelen) else ("posinf" if math.isinf(codelen) and codelen > 0 else "finite" if math.isfinite(codelen) else "neginf")
+            expect = -(len(kept) / 2.0) * math.log(3.0) + sum(0.5 * math.log(I[i, i]) + math.log(abs(theta[i])) for i in kept)
+            rec["formula"] = bool(math.isfinite(codelen) and abs(codelen - expect) <= 1e-5 * max(1.0, abs(expect)))
+            rec["codelen"], rec["expect"] = codelen, expect
+            # reported parameters: zeros where dropped, the ML values elsewhere (when the routine reports them at all)
+            rec["zeros"] = zeros
+            rep = np.array([0.0 if (i + 1) in zeros else theta[i] for i in range(k)])
+            at_rep = w.negloglike(rep, eqn)
+            rec["nllok"] = bool((math.isinf(at_rep) and math.isinf(nll)) or abs(float(nll) - at_rep) <= 1e-9 * max(1.0, abs(at_rep)))
+            rec["params_are_ml_or_zero"] = bool(all(params[i] == 0.0 or abs(params[i] - theta[i]) <= 1e-12 * abs(theta[i]) for i in range(k)))
+            rec["nll"], rec["nll_at_reported"] = float(nll), float(at_rep)
+        except Exception as e:
+            rec["raised"] = "%s: %s" % (type(e).__name__, e)
+        out.append(rec)
+    json.dump(out, open(out_path, "w"))
